@@ -239,6 +239,10 @@ class Ctx:
         shutil.rmtree(rdir, ignore_errors=True)
         seen = set()
         nrep = 0
+        if os.environ.get("VERIF_DUMP_SIGS"):
+            with open(os.environ["VERIF_DUMP_SIGS"], "w") as f:
+                for v in self.violations:
+                    f.write(json.dumps({"sig": v["sig"], "desc": v["desc"][:600], "input": str(v.get("replay", {}).get("input.txt", ""))[:3000]}) + "\n")
         for v in unknown:
             key = json.dumps(v["sig"], sort_keys=True)
             if key in seen:
